@@ -148,6 +148,17 @@ func confirm(scratch, src string, frag bool, f Finding) (bool, string) {
 		fatal(err.Error())
 	}
 
+	if f.Diag == "does-not-terminate" {
+		// the verdict is the VM's instruction count in the judging worker (the
+		// original ended, the formatted text ran past the budget); what a fresh
+		// process adds is that `ego fmt` really prints that text
+		if strings.TrimRight(f1, "\n") == strings.TrimRight(f.Fmt, "\n") {
+			return true, "`ego fmt` prints the text that ran past " + fmt.Sprint(runawayBudget) + " instructions; the original ends"
+		}
+
+		return false, "a fresh ego fmt prints a different text"
+	}
+
 	switch f.Kind {
 	case "comment-lost":
 		if lost := lostComments(src, f1); len(lost) > 0 {
@@ -173,10 +184,6 @@ func confirm(scratch, src string, frag bool, f Finding) (bool, string) {
 	case "changes-program":
 		fmtOut, ok := freshRun(scratch, formatted, frag)
 		if !ok {
-			if strings.Contains(f.Detail, "does not terminate") {
-				return true, "`ego run` of the formatted file does not end (watchdog), the original ends"
-			}
-
 			return false, "the formatted program did not finish in a fresh process"
 		}
 
